@@ -179,3 +179,15 @@ def rollout_redeploy_keeps_serving_the_rollout_group_while_it_waits():
     return {"steps": [dep("c1", [b"ta:80"]), rd("c2", b"tr:80", False, ["ok"]), rs, r("r1"), {"op": "sleep", "ns": SEC // 10},
                       rd("c4", b"ts:80", True, ["slow:%d:200" % (2 * SEC)]), {"op": "sleep", "ns": SEC // 2}, r("r2"), req("r3"),
                       {"op": "sleep", "ns": SEC}, r("r4"), {"op": "sleep", "ns": 2 * SEC}, r("r5"), {"op": "sleep", "ns": 4 * SEC}, r("r6")]}
+
+
+def probe_slower_than_the_interval_but_within_its_timeout():
+    """after the redeploy the new target answers one of its later probes slowly: longer than the probe interval (1 s), well within
+    the probe timeout (5 s) - it stays healthy and every request is answered by it"""
+    d2 = dep("c2", [b"tb:80"])
+    d2["targets"][0]["probes"] = ["ok", "slow:%d:200" % (3 * SEC // 2), "slow:%d:200" % (3 * SEC // 2), "ok"]
+    steps = [dep("c1", [b"ta:80"]), d2]
+    for k in range(18):
+        steps += [{"op": "sleep", "ns": SEC // 2}, req("r%d" % (k + 1))]
+    steps.append({"op": "sleep", "ns": SEC})
+    return {"steps": steps}
